@@ -1,6 +1,6 @@
 SPECIFICATION Spec
 CONSTANTS
-  Versions <- VersionsCtor
-  Family = "single"
+  Versions <- VersionsAll
+  Family = "core"
 INVARIANTS RefusedWhenOver PersistableOnlyBytes OkWithin HashIndependent ShapesWellFormed Emit
 CHECK_DEADLOCK FALSE
